@@ -100,13 +100,36 @@ func RunMetaScript(spec MetaSpec) vx.Out {
 	tr := &MetaTrace{Spec: spec}
 	LastMeta = tr
 	var w *World
+	// the live state is sampled at every decision point (a state that exists only between
+	// two file effects - e.g. between PersistMetadata reading the flags and opening the temp
+	// file - is still "a state the daemon passed through"); the samples since the previous
+	// event are attached to the next one
+	var since []string
+	sample := func() {
+		if w == nil {
+			return
+		}
+		for _, s := range liveStates(w.N) {
+			dup := false
+			for _, o := range since {
+				dup = dup || o == s
+			}
+			if !dup {
+				since = append(since, s)
+			}
+		}
+	}
+	vrt.OnPoint = sample
+	defer func() { vrt.OnPoint = nil }()
 	vos.Hook = func(e vos.Effect) {
 		if !strings.Contains(e.Path, "nsqd.dat") && !strings.Contains(e.To, "nsqd.dat") {
 			return
 		}
 		ev := metaEvent{Kind: "effect", Eff: e, Step: len(tr.Codes)}
 		if w != nil {
-			ev.Snaps = liveStates(w.N)
+			sample()
+			ev.Snaps = since
+			since = nil
 		}
 		tr.Events = append(tr.Events, ev)
 	}
@@ -138,6 +161,10 @@ func RunMetaScript(spec MetaSpec) vx.Out {
 	w.N.waitGroup.Wrap(w.N.lookupLoop)
 	idle := func() {
 		w.Quiesce()
+		if len(since) > 0 {
+			tr.Events = append(tr.Events, metaEvent{Kind: "snap", Snaps: since, Step: len(tr.Codes)})
+			since = nil
+		}
 		tr.Events = append(tr.Events, metaEvent{Kind: "idle", Snaps: liveStates(w.N), Step: len(tr.Codes)})
 	}
 	idle()
@@ -182,7 +209,9 @@ func RunMetaScript(spec MetaSpec) vx.Out {
 		// the step makes that touches the metadata file; the final state is sampled at idle
 		code, _ := w.Do("POST", strings.ReplaceAll(url, "#", "%23"), nil)
 		tr.Codes = append(tr.Codes, code)
-		ev := metaEvent{Kind: "snap", Snaps: liveStates(w.N), Step: len(tr.Codes)}
+		sample()
+		ev := metaEvent{Kind: "snap", Snaps: since, Step: len(tr.Codes)}
+		since = nil
 		if ackObj != "" && !strings.Contains(st, "#ephemeral") {
 			ev.AckObj, ev.AckVal, ev.AckOK = ackObj, ackVal, code == 200
 		}
